@@ -206,7 +206,11 @@ async fn handle(
         } => handle_stream_append(&mut store, req, topic, ttl, context_id).await,
 
         Routes::CasGet(hash) => {
-            let reader = store.cas_reader(hash).await?;
+            // content that was never written is a client error, not a reason to drop the connection
+            let reader = match store.cas_reader(hash).await {
+                Ok(reader) => reader,
+                Err(_) => return response_404(),
+            };
             let stream = ReaderStream::new(reader);
 
             let stream = stream.map(|frame| {
